@@ -53,7 +53,7 @@ def rename_rule(ctx):
                "FileStorage::rename removes the old log before the new file/log exist (or a step is missing)", b.where)
         # the log that is removed must be the OLD one: self.filename may only be re-assigned after remove_file,
         # and the removed path derives from wal_filename(&self.filename)
-        assign = [bi for bi, s in cfg.assigns(b) if cfg.origin(b, s["l"]) == (1, [".filename"])]
+        assign = [bi for bi, s in cfg.assigns(b) if s["l"][0] == 1 and [e for e in s["l"][1:] if e != "*"] == [".filename"]]
         wf = [(i, t) for i, t in cfg.calls(b) if (cfg.callee(t) or "").endswith("WriteAheadLog::wal_filename")]
         ok2 = bool(assign and rm and wf)
         if ok2:
